@@ -14,16 +14,17 @@ structure WFmem (s : Img) : Prop where
   doff : 128 ≤ s.h.doff
   tabEnd : s.h.doff + 585 * s.rds.length ≤ s.h.dataOff
   dsize : (585 * s.rds.length : Int) ≤ s.h.dsize
+  tabRegion : s.h.doff + s.h.dsize ≤ s.h.dataOff
   coh : MinCoh s.minIDs s.rds
   acct : s.h.dfree + (live s.rds).length = s.h.dtotal
   uniq : ((live s.rds).map (·.id)).Nodup
   lo : ∀ d ∈ s.rds, d.used = true → 0 ≤ d.off ∧ 0 ≤ d.size
 
 theorem WF.mem (s : Img) (W : WF s) : WFmem s :=
-  ⟨W.magic, W.version, W.total, W.doff, W.tabEnd, W.dsize, W.coh, W.acct, W.uniq, W.lo⟩
+  ⟨W.magic, W.version, W.total, W.doff, W.tabEnd, W.dsize, W.tabRegion, W.coh, W.acct, W.uniq, W.lo⟩
 
 theorem WF.of_mem (s : Img) (M : WFmem s) (S : Synced s) : WF s :=
-  ⟨M.magic, M.version, M.total, M.doff, M.tabEnd, M.dsize, S, M.coh, M.acct, M.uniq, M.lo⟩
+  ⟨M.magic, M.version, M.total, M.doff, M.tabEnd, M.dsize, M.tabRegion, S, M.coh, M.acct, M.uniq, M.lo⟩
 
 /-! ### live descriptors under the two table updates -/
 
@@ -65,14 +66,14 @@ theorem add_preserves_mem (s : Img) (M : WFmem s) (i : Nat) (d : RawDesc) (arch 
     WFmem { s1 with h := { s1.h with mtime := t } } ∧ WFmem s1 := by
   intro s1
   suffices h : WFmem { s1 with h := { s1.h with mtime := t } } from
-    ⟨h, ⟨h.magic, h.version, h.total, h.doff, h.tabEnd, h.dsize, h.coh, h.acct, h.uniq, h.lo⟩⟩
+    ⟨h, ⟨h.magic, h.version, h.total, h.doff, h.tabEnd, h.dsize, h.tabRegion, h.coh, h.acct, h.uniq, h.lo⟩⟩
   have hri : s.rds[i].used = false := by simpa [List.getD, hi] using hfree
   have hl0 : live [s.rds[i]] = [] := by simp [live, hri]
   have hl1 : live [d] = [d] := by simp [live, hu]
   have hsplit := live_split s.rds i hi
   have hsplit' := live_set_split s.rds i d hi
   rw [hl0] at hsplit; rw [hl1] at hsplit'
-  refine ⟨M.magic, M.version, ?_, M.doff, ?_, ?_, ?_, ?_, ?_, ?_⟩
+  refine ⟨M.magic, M.version, ?_, M.doff, ?_, ?_, M.tabRegion, ?_, ?_, ?_, ?_⟩
   · simpa [s1, commitObject] using M.total
   · simpa [s1, commitObject] using M.tabEnd
   · simpa [s1, commitObject] using M.dsize
@@ -167,7 +168,7 @@ theorem delete_preserves_mem (s : Img) (M : WFmem s) (sel : Sel) (compact : Bool
       = populateMinIDs (s.rds.map (fun d => if hit ph sel d then zeroDesc else d)) := by
     simp [deleteResult, deleteFinish]
   refine ⟨by rw [g1]; exact M.magic, by rw [g2]; exact M.version, ?_, by rw [g4]; exact M.doff, ?_, ?_,
-    ?_, ?_, ?_, ?_⟩
+    by rw [g4, g6, g5]; exact M.tabRegion, ?_, ?_, ?_, ?_⟩
   · rw [g3, hrds]; simpa using M.total
   · rw [g4, g5, hrds]; simpa using M.tabEnd
   · rw [g6, hrds]; simpa using M.dsize
@@ -192,7 +193,7 @@ theorem keys_preserve_mem (s s' : Img) (M : WFmem s) (hk : s'.rds.map key = s.rd
   obtain ⟨k1, k2⟩ := live_map_key s.rds s'.rds hk
   refine ⟨by rw [h1]; exact M.magic, by rw [h2]; exact M.version, by rw [h3, hlen]; exact M.total,
     by rw [h4]; exact M.doff, by rw [h4, h5, hlen]; exact M.tabEnd, by rw [h6, hlen]; exact M.dsize,
-    ?_, by rw [h7, h3, k2]; exact M.acct, by rw [k1]; exact M.uniq, lo_of_keys s.rds s'.rds hk M.lo⟩
+    by rw [h4, h6, h5]; exact M.tabRegion, ?_, by rw [h7, h3, k2]; exact M.acct, by rw [k1]; exact M.uniq, lo_of_keys s.rds s'.rds hk M.lo⟩
   rw [hm]; exact MinCoh.of_keys s.minIDs s.rds s'.rds hk M.coh
 
 theorem setExtra_key (copied : Bytes) (md : MDIn) (d d' : RawDesc)
